@@ -22,6 +22,10 @@ type TOperand struct {
 	Raw       constant.Value
 	Label     int    // back: capture id
 	Detail    string // unknown: why
+	// rawtable: the operand is the value found in a constant package-level table under a
+	// key expression; Table lists (key constant name or value, operand value)
+	Table   [][2]string
+	TableOn ast.Expr
 }
 
 type TEvent struct {
@@ -394,6 +398,7 @@ type tinterp struct {
 	binds  []map[types.Object]ast.Expr // parameter -> argument expr of inlined calls
 	caps   int
 	self   *types.Func
+	tables map[types.Object]*TOperand // locals bound by `v, ok := <constant table>[key]`
 }
 
 func (em *Emitter) interpret(kind string, path Path, self *types.Func) *Template {
@@ -592,6 +597,10 @@ func (it *tinterp) run(atoms []Atom, loopSlot string) {
 				if len(call.Args) == 1 {
 					if tv, ok := info.Types[call.Args[0]]; ok && tv.Value != nil {
 						o = TOperand{Kind: "raw", Raw: tv.Value}
+					} else if id, ok := Unparen(call.Args[0]).(*ast.Ident); ok {
+						if tb := it.tables[it.objOf(id)]; tb != nil {
+							o = *tb
+						}
 					}
 				}
 				it.callV[call] = &tval{kind: "operand", opnd: o}
@@ -631,6 +640,18 @@ func (it *tinterp) run(atoms []Atom, loopSlot string) {
 					if s := info.Selections[sel]; s != nil && s.Kind() == types.FieldVal {
 						if rt := s.Recv(); rt != nil && strings.Contains(rt.String(), em.CompType.Obj().Name()) {
 							it.problem("direct write to the compiler's state outside the emit primitives: %s", ExprStr(as.Lhs[0])+" "+as.Tok.String()+" …")
+						}
+					}
+				}
+			}
+			if len(as.Lhs) == 2 && len(as.Rhs) == 1 {
+				if ix, ok := Unparen(as.Rhs[0]).(*ast.IndexExpr); ok {
+					if id, ok := as.Lhs[0].(*ast.Ident); ok {
+						if tb := em.constTable(info, ix.X); tb != nil {
+							if it.tables == nil {
+								it.tables = map[types.Object]*TOperand{}
+							}
+							it.tables[it.objOf(id)] = &TOperand{Kind: "rawtable", Table: tb, TableOn: ix.Index}
 						}
 					}
 				}
@@ -863,4 +884,74 @@ func contradictoryStringTests(info *types.Info, t *Template) bool {
 		}
 	}
 	return false
+}
+
+// constTable: e names a package-level map variable of the compiler package that is initialised
+// by a literal with constant keys and values and never written afterwards: its (key, value)
+// pairs, keys rendered by constant name where they have one.
+func (em *Emitter) constTable(info *types.Info, e ast.Expr) [][2]string {
+	id, ok := Unparen(e).(*ast.Ident)
+	if !ok {
+		return nil
+	}
+	v, ok := info.Uses[id].(*types.Var)
+	if !ok || v.Pkg() == nil || v.Parent() != v.Pkg().Scope() {
+		return nil
+	}
+	pk := em.Prog.Pkg("compiler")
+	var lit *ast.CompositeLit
+	written := false
+	for _, f := range pk.Syntax {
+		ast.Inspect(f, func(n ast.Node) bool {
+			switch x := n.(type) {
+			case *ast.ValueSpec:
+				for i, nm := range x.Names {
+					if info.Defs[nm] == types.Object(v) && i < len(x.Values) {
+						lit, _ = Unparen(x.Values[i]).(*ast.CompositeLit)
+					}
+				}
+			case *ast.AssignStmt:
+				for _, l := range x.Lhs {
+					base := Unparen(l)
+					if ix, ok := base.(*ast.IndexExpr); ok {
+						base = Unparen(ix.X)
+					}
+					if bid, ok := base.(*ast.Ident); ok && info.Uses[bid] == types.Object(v) {
+						written = true
+					}
+				}
+			case *ast.CallExpr:
+				if fid, ok := x.Fun.(*ast.Ident); ok && fid.Name == "delete" && len(x.Args) == 2 {
+					if bid, ok := Unparen(x.Args[0]).(*ast.Ident); ok && info.Uses[bid] == types.Object(v) {
+						written = true
+					}
+				}
+			}
+			return true
+		})
+	}
+	if lit == nil || written {
+		return nil
+	}
+	var out [][2]string
+	for _, el := range lit.Elts {
+		kv, ok := el.(*ast.KeyValueExpr)
+		if !ok {
+			return nil
+		}
+		ktv, ok1 := info.Types[kv.Key]
+		vtv, ok2 := info.Types[kv.Value]
+		if !ok1 || !ok2 || ktv.Value == nil || vtv.Value == nil {
+			return nil
+		}
+		name := ktv.Value.ExactString()
+		switch k := Unparen(kv.Key).(type) {
+		case *ast.SelectorExpr:
+			name = k.Sel.Name
+		case *ast.Ident:
+			name = k.Name
+		}
+		out = append(out, [2]string{name, vtv.Value.ExactString()})
+	}
+	return out
 }
